@@ -548,14 +548,29 @@ def self_exclusion(ctx: Ctx):
     sl_ = ctx.repo.cls("cubepart.py", "_Slice")
     pi = ctx.repo.lookup(sl_, "_pairwise_indices")
     params = [a for a in pi.params if a not in ("self", "cls")] if pi is not None else []
-    # the parameter of _pairwise_indices whose column is masked:  significance[:, <param>] = False
-    masked = set()
-    if pi is not None:
-        for n in ast.walk(pi.node):
+    # the parameter of _pairwise_indices whose column is masked:  significance[:, <param>] = False  - in the function itself
+    # or in a helper of the class it hands the parameter to
+    def masked_params(member, depth=0):
+        ps = [a for a in member.params if a not in ("self", "cls")]
+        out = set()
+        for n in ast.walk(member.node):
             if isinstance(n, ast.Assign) and isinstance(n.targets[0], ast.Subscript) and u(n.value) == "False":
                 slc = n.targets[0].slice
-                if isinstance(slc, ast.Tuple) and len(slc.elts) == 2 and isinstance(slc.elts[1], ast.Name) and slc.elts[1].id in params:
-                    masked.add(slc.elts[1].id)
+                if isinstance(slc, ast.Tuple) and len(slc.elts) == 2 and isinstance(slc.elts[1], ast.Name) and slc.elts[1].id in ps:
+                    out.add(slc.elts[1].id)
+            if depth < 2 and isinstance(n, ast.Call) and isinstance(n.func, ast.Attribute) and isinstance(n.func.value, ast.Name) and n.func.value.id in ("self", "cls", "_Slice", "CubePartition"):
+                h = ctx.repo.lookup(sl_, n.func.attr)
+                if h is not None and h is not member and h.kind in ("method", "staticmethod", "classmethod"):
+                    hm = masked_params(h, depth + 1)
+                    hps = [a for a in h.params if a not in ("self", "cls")]
+                    bound_h = dict(zip(hps, n.args))
+                    bound_h.update({k.arg: k.value for k in n.keywords if k.arg})
+                    for hp, av in bound_h.items():
+                        if hp in hm and isinstance(av, ast.Name) and av.id in ps:
+                            out.add(av.id)
+        return out
+
+    masked = masked_params(pi) if pi is not None else set()
     for prop in ("pairwise_indices", "pairwise_indices_alt"):
         m = ctx.repo.lookup(sl_, prop)
         w = f"cubepart.py::_Slice.{prop}"
